@@ -1340,3 +1340,379 @@ Proof.
   - apply ptrset_good; auto.
   - apply use_good; auto.
 Qed.
+
+(* ------------------------------------------------------------------ histories *)
+Definition trace := list (op * Z * list ev).
+
+Fixpoint run (s : state) (L : ledger) (ops : list op) : option (state * ledger * trace) :=
+  match ops with
+  | [] => Some (s, L, [])
+  | o :: t =>
+      match step s o with
+      | ROk s' ret evs =>
+          match run s' (ledger_step (heap_of s) L o ret) t with
+          | Some (s2, L2, tr) => Some (s2, L2, (o, ret, evs) :: tr)
+          | None => None
+          end
+      | _ => None
+      end
+  end.
+
+(* every operation is admissible in the state in which it is issued *)
+Fixpoint adm_hist (s : state) (L : ledger) (ops : list op) : Prop :=
+  match ops with
+  | [] => True
+  | o :: t =>
+      admissible s L o /\
+      match step s o with
+      | ROk s' ret _ => adm_hist s' (ledger_step (heap_of s) L o ret) t
+      | _ => True
+      end
+  end.
+
+Fixpoint all_evs (tr : trace) : list ev :=
+  match tr with [] => [] | (_, _, evs) :: t => evs ++ all_evs t end.
+
+Definition L0 : ledger := fun _ => 0.
+
+Lemma sinv_init : SInv init_state L0.
+Proof.
+  split; [|split; [|simpl; lia]].
+  - constructor.
+    + simpl. constructor.
+    + intros i n c H. simpl in H. discriminate.
+    + intros i n H. simpl in H. discriminate.
+    + intros. unfold L0. lia.
+    + intros. reflexivity.
+    + exists (fun _ => O). intros i n c H. simpl in H. discriminate.
+  - intros i H. exfalso. apply H. reflexivity.
+Qed.
+
+Definition LogInv (s : state) (log : list ev) : Prop :=
+  NoDup (dids log) /\ forall j, In j (dids log) -> hfind (heap_of s) j = None /\ j < nxt s.
+
+Lemma loginv_step : forall s L s' log evs,
+  SInv s L -> LogInv s log -> SFacts s s' evs -> LogInv s' (log ++ evs).
+Proof.
+  intros s L s' log evs (I & IDS & NP) (ND & LG) SF. split.
+  - rewrite dids_app. apply nodup_app; [auto|apply (sf_nodup _ _ _ SF)|].
+    intros x X Y. apply (sf_log _ _ _ SF) in Y. destruct (LG x X). tauto.
+  - intros j X. rewrite dids_app in X. apply in_app_or in X. pose proof (sf_nxt _ _ _ SF).
+    destruct X as [X|X].
+    + destruct (LG j X) as (D & B). split; [|lia].
+      destruct (hfind (heap_of s') j) eqn:E; [|reflexivity].
+      assert (nxt s <= j < nxt s') by (apply (sf_fresh _ _ _ SF); congruence). lia.
+    + apply (sf_log _ _ _ SF) in X. destruct X as (A & B). split; [auto|].
+      assert (j < nxt s) by (apply IDS; exact A). lia.
+Qed.
+
+Theorem run_invariant : forall ops s L log,
+  SInv s L -> LogInv s log -> adm_hist s L ops ->
+  exists s' L' tr, run s L ops = Some (s', L', tr) /\ SInv s' L' /\ LogInv s' (log ++ all_evs tr).
+Proof.
+  induction ops as [|o t IH]; intros s L log SI LI AH; simpl in *.
+  - exists s, L, []. rewrite app_nil_r. auto.
+  - destruct AH as (A & AH).
+    destruct (step_preserves s L o SI A) as (s1 & ret & evs & E & SI1 & SF). rewrite E in *.
+    destruct (IH s1 _ (log ++ evs) SI1 (loginv_step _ _ _ _ _ SI LI SF) AH) as (s2 & L2 & tr & R & SI2 & LI2).
+    rewrite R. exists s2, L2, ((o, ret, evs) :: tr). split; [reflexivity|]. split; [auto|].
+    simpl. rewrite app_assoc. auto.
+Qed.
+
+(* rc_invariant: after any admissible history every live node has rc = ledger + in-degree > 0,
+   its children are live, the heap is acyclic *)
+Theorem rc_invariant : forall ops,
+  adm_hist init_state L0 ops ->
+  exists s' L' tr, run init_state L0 ops = Some (s', L', tr) /\ Inv (heap_of s') L' /\
+    forall i n, hfind (heap_of s') i = Some n -> rc n = L' i + indeg (heap_of s') i /\ rc n > 0.
+Proof.
+  intros ops AH.
+  destruct (run_invariant ops init_state L0 [] sinv_init) as (s' & L' & tr & R & (I & _) & _); auto.
+  - split; [constructor|]. simpl. tauto.
+  - exists s', L', tr. split; [auto|]. split; [auto|]. intros. apply (inv_rc _ _ I i n H).
+Qed.
+
+(* destroyed_once, history part: over a whole admissible history no node is logged twice *)
+Theorem destroyed_once_history : forall ops,
+  adm_hist init_state L0 ops ->
+  exists s' L' tr, run init_state L0 ops = Some (s', L', tr) /\ NoDup (dids (all_evs tr)) /\
+    forall j, In j (dids (all_evs tr)) -> hfind (heap_of s') j = None.
+Proof.
+  intros ops AH.
+  destruct (run_invariant ops init_state L0 [] sinv_init) as (s' & L' & tr & R & _ & (ND & LG)); auto.
+  - split; [constructor|]. simpl. tauto.
+  - exists s', L', tr. simpl in *. split; [auto|]. split; [auto|]. intros. apply LG. auto.
+Qed.
+
+(* who keeps a node alive *)
+Lemma live_iff_owned : forall h L j, Inv h L ->
+  (live h j <-> (L j > 0 \/ exists i n, hfind h i = Some n /\ In j (kid_ids (children n)))).
+Proof.
+  intros h L j I. split.
+  - intros LV. destruct (hfind h j) as [n|] eqn:F; [|exfalso; apply LV; auto].
+    destruct (inv_rc _ _ I j n F). destruct (Z_gt_le_dec (L j) 0); [auto|right].
+    destruct (indeg_pos_edge h j) as (i & m & A & B); [lia|].
+    exists i, m. split; [apply in_nodup_hfind; auto; apply (inv_nodup _ _ I)|auto].
+  - intros [O|(i & n & F & X)].
+    + assert (O1 : L j >= 1) by lia. destruct (inv_owned_live _ _ _ I O1) as [n F]. unfold live. congruence.
+    + apply (inv_kids _ _ I i n j F X).
+Qed.
+
+(* destroyed_once, step part: in the step of an admissible operation a node's destruction is
+   logged iff it existed before and after the step neither the client nor a live container
+   holds a reference to it; the log of the step has no duplicates; the callback recorded is
+   the one installed when the step began *)
+Theorem destroyed_exactly : forall s L o,
+  SInv s L -> admissible s L o ->
+  exists s' ret evs, step s o = ROk s' ret evs /\
+    let L' := ledger_step (heap_of s) L o ret in
+    NoDup (dids evs) /\
+    (forall j, In j (dids evs) <->
+       (live (heap_of s) j /\
+        ~ (L' j > 0 \/ exists i n, hfind (heap_of s') i = Some n /\ In j (kid_ids (children n))))) /\
+    (forall j c, In (EDestroy j c) evs -> exists n, hfind (heap_of s) j = Some n /\ cb n = c).
+Proof.
+  intros s L o SI A. destruct (step_preserves s L o SI A) as (s' & ret & evs & E & (I' & _) & SF).
+  exists s', ret, evs. split; [auto|]. simpl. split; [apply (sf_nodup _ _ _ SF)|]. split; [|apply (sf_cb _ _ _ SF)].
+  intros j. rewrite (sf_log _ _ _ SF j), <- (live_iff_owned _ _ j I'). unfold live.
+  destruct (hfind (heap_of s') j); split; intros [X Y]; split; auto; try congruence.
+  exfalso. apply Y. congruence.
+Qed.
+
+(* put reports 'freed' exactly when its argument is destroyed by this call *)
+Theorem put_returns_freed : forall s L i,
+  SInv s L -> admissible s L (OPut i) ->
+  exists s' ret evs, step s (OPut i) = ROk s' ret evs /\ (ret = 0 \/ ret = 1) /\
+    (ret = 1 <-> In i (dids evs)) /\ (ret = 1 <-> hfind (heap_of s') i = None) /\
+    (ret = 1 <-> exists n, hfind (heap_of s) i = Some n /\ rc n = 1).
+Proof.
+  intros s L i SI A. simpl in A. pose proof SI as (I & _).
+  destruct (put_h_ok (heap_of s) L i I A Logic.I) as (h' & evs & b & E & I' & _).
+  destruct (put_h_struct _ _ _ _ _ E) as (PS & B & LV).
+  exists (mkSt h' (nxt s)), (if b then 1 else 0), evs.
+  split; [simpl; unfold put_node; rewrite E; reflexivity|].
+  split; [destruct b; auto|]. simpl.
+  assert (R1 : (if b then 1 else 0) = 1 <-> b = true) by (destruct b; split; intros; try reflexivity; try discriminate).
+  split; [|split].
+  - rewrite R1, B, (ps_log _ _ _ PS i). tauto.
+  - rewrite R1. exact B.
+  - rewrite R1, B. destruct (hfind (heap_of s) i) as [n|] eqn:F; [|congruence].
+    destruct (inv_rc _ _ I i n F) as [RC POS]. split.
+    + intros D. exists n. split; [auto|].
+      destruct (Z.eq_dec (rc n) 1); [auto|exfalso].
+      (* rc >= 2: the node survives *)
+      unfold put_h in E. simpl in E. rewrite F in E.
+      replace (rc n <=? 0) with false in E by lia. replace (1 <? rc n) with true in E by lia.
+      inversion E; subst. rewrite hfind_hset, Z.eqb_refl in D. discriminate.
+    + intros (n' & F' & R). inversion F'; subst n'.
+      unfold put_h in E. simpl in E. rewrite F in E.
+      replace (rc n <=? 0) with false in E by lia. replace (1 <? rc n) with false in E by lia.
+      destruct (put_list _ _ _) in E; try discriminate. inversion E; subst. apply B. reflexivity.
+Qed.
+
+(* survives_parent: whatever a put destroys, a node the client still owns afterwards is live,
+   has the same kind, members and callback as before, a correct count, and live members *)
+Theorem survives_parent : forall s L p,
+  SInv s L -> admissible s L (OPut p) ->
+  exists s' ret evs, step s (OPut p) = ROk s' ret evs /\
+    forall c, upd L p (-1) c > 0 ->
+      exists n n', hfind (heap_of s) c = Some n /\ hfind (heap_of s') c = Some n' /\
+        nkind n' = nkind n /\ children n' = children n /\ cb n' = cb n /\
+        rc n' = upd L p (-1) c + indeg (heap_of s') c /\
+        (forall x, In x (kid_ids (children n')) -> live (heap_of s') x).
+Proof.
+  intros s L p SI A. simpl in A. pose proof SI as (I & _).
+  destruct (put_h_ok (heap_of s) L p I A Logic.I) as (h' & evs & b & E & I' & _).
+  destruct (put_h_struct _ _ _ _ _ E) as (PS & _ & _).
+  exists (mkSt h' (nxt s)), (if b then 1 else 0), evs.
+  split; [simpl; unfold put_node; rewrite E; reflexivity|]. simpl.
+  intros c OC.
+  assert (O1 : upd L p (-1) c >= 1) by lia.
+  destruct (inv_owned_live _ _ _ I' O1) as [n' F'].
+  destruct (ps_keep _ _ _ PS c n' F') as (n & F & (S1 & S2 & S3 & S4)).
+  exists n, n'. repeat split; auto.
+  - apply (inv_rc _ _ I' c n' F').
+  - intros x X. apply (inv_kids _ _ I' c n' x F' X).
+Qed.
+
+(* the same for every operation, as far as liveness goes: what the client owns after an
+   admissible step exists *)
+Theorem owned_is_live : forall s L o,
+  SInv s L -> admissible s L o ->
+  exists s' ret evs, step s o = ROk s' ret evs /\
+    forall c, ledger_step (heap_of s) L o ret c > 0 -> live (heap_of s') c.
+Proof.
+  intros s L o SI A. destruct (step_preserves s L o SI A) as (s' & ret & evs & E & (I' & _) & _).
+  exists s', ret, evs. split; [auto|]. intros c OC. apply (live_iff_owned _ _ c I'). auto.
+Qed.
+
+(* ------------------------------------------------------------------ failed operations *)
+(* the C API reports failure by a non-zero int (deep copy: a negative one; the model returns
+   the id of the copy on success) *)
+Definition failed (o : op) (ret : Z) : bool :=
+  match o with
+  | OObjAdd _ _ _ | OArrAdd _ _ | OArrPut _ _ _ | OArrIns _ _ _ | OArrDel _ _ _ | OPtrSet _ _ _ => negb (ret =? 0)
+  | OCopy _ _ => ret <? 0
+  | _ => false
+  end.
+
+Ltac crush_fail :=
+  repeat (match goal with
+          | H : ROk _ _ _ = ROk _ _ _ |- _ => inversion H; clear H; subst
+          | H : lift_l _ 0 ?r = ROk _ _ _ |- _ =>
+              destruct r; cbn [lift_l] in H; [inversion H; clear H; subst|discriminate|discriminate]
+          | H : context[match ?x with _ => _ end] |- _ => destruct x eqn:?; try discriminate
+          end).
+
+Lemma obj_add_fail : forall s p k v s' ret evs,
+  obj_add s p k v = ROk s' ret evs -> ret <> 0 -> s' = s /\ evs = [].
+Proof. intros s p k v s' ret evs H NZ. unfold obj_add in H. crush_fail; try lia; auto. Qed.
+
+Lemma arr_add_fail : forall s p v s' ret evs,
+  arr_add s p v = ROk s' ret evs -> ret <> 0 -> s' = s /\ evs = [].
+Proof. intros s p v s' ret evs H NZ. unfold arr_add in H. crush_fail; try lia; auto. Qed.
+
+Lemma arr_put_on_fail : forall s p n idx v s' ret evs,
+  arr_put_on s p n idx v = ROk s' ret evs -> ret <> 0 -> s' = s /\ evs = [].
+Proof. intros s p n idx v s' ret evs H NZ. unfold arr_put_on in H. crush_fail; try lia; auto. Qed.
+
+Lemma arr_put_fail : forall s p idx v s' ret evs,
+  arr_put s p idx v = ROk s' ret evs -> ret <> 0 -> s' = s /\ evs = [].
+Proof.
+  intros s p idx v s' ret evs H NZ. unfold arr_put in H.
+  destruct (hfind (heap_of s) p); [|discriminate]. destruct (negb _); [discriminate|].
+  eapply arr_put_on_fail; eauto.
+Qed.
+
+Lemma arr_ins_fail : forall s p idx v s' ret evs,
+  arr_ins s p idx v = ROk s' ret evs -> ret <> 0 -> s' = s /\ evs = [].
+Proof.
+  intros s p idx v s' ret evs H NZ. unfold arr_ins in H.
+  destruct (hfind (heap_of s) p); [|discriminate]. destruct (negb _); [discriminate|].
+  destruct (_ || _); [discriminate|]. destruct (_ <=? _); [eapply arr_put_on_fail; eauto|].
+  inversion H; subst. lia.
+Qed.
+
+Lemma arr_del_fail : forall s p idx c s' ret evs,
+  arr_del s p idx c = ROk s' ret evs -> ret <> 0 -> s' = s /\ evs = [].
+Proof.
+  intros s p idx c s' ret evs H NZ. unfold arr_del in H.
+  destruct (hfind (heap_of s) p); [|discriminate]. cbv zeta in H.
+  destruct (negb _); [discriminate|].
+  destruct (_ || _ || _ || _); [discriminate|].
+  destruct (_ <? idx); [inversion H; auto|].
+  destruct (_ || _); [inversion H; auto|].
+  destruct (release_list _ _); cbn [lift_l] in H; try discriminate. inversion H; subst. lia.
+Qed.
+
+Lemma copy_f_root : forall f cu hs s src s1 r, copy_f f cu hs s src = COk s1 r -> r = nxt s.
+Proof.
+  intros f cu hs s src s1 r H. destruct f; simpl in H; [discriminate|].
+  destruct (hfind hs src); [|discriminate].
+  destruct (negb cu && has_cb n); [discriminate|].
+  destruct (copy_kids _ _ _ _); try discriminate. inversion H; reflexivity.
+Qed.
+
+(* a failed operation changes nothing and the caller keeps every reference it had *)
+Theorem failure_keeps_ownership : forall s o s' ret evs,
+  0 < nxt s -> step s o = ROk s' ret evs -> failed o ret = true ->
+  s' = s /\ evs = [] /\ forall L, ledger_step (heap_of s) L o ret = L.
+Proof.
+  intros s o s' ret evs NP H F.
+  destruct o; simpl in F; try discriminate; simpl in H.
+  - assert (NZ : ret <> 0) by lia. destruct (obj_add_fail _ _ _ _ _ _ _ H NZ). repeat split; auto.
+    intros. simpl. replace (ret =? 0) with false by lia. reflexivity.
+  - assert (NZ : ret <> 0) by lia. destruct (arr_add_fail _ _ _ _ _ _ H NZ). repeat split; auto.
+    intros. simpl. replace (ret =? 0) with false by lia. reflexivity.
+  - assert (NZ : ret <> 0) by lia. destruct (arr_put_fail _ _ _ _ _ _ _ H NZ). repeat split; auto.
+    intros. simpl. replace (ret =? 0) with false by lia. reflexivity.
+  - assert (NZ : ret <> 0) by lia. destruct (arr_ins_fail _ _ _ _ _ _ _ H NZ). repeat split; auto.
+    intros. simpl. replace (ret =? 0) with false by lia. reflexivity.
+  - assert (NZ : ret <> 0) by lia. destruct (arr_del_fail _ _ _ _ _ _ _ H NZ). repeat split; auto.
+  - unfold deep_copy in H. destruct (copy_f _ _ _ _ _) as [s1 r| | |] eqn:C; try discriminate.
+    + inversion H; subst. apply copy_f_root in C. lia.
+    + inversion H; subst. repeat split; auto.
+  - assert (NZ : ret <> 0) by lia. unfold ptr_set in H.
+    destruct (hfind (heap_of s) root); [|discriminate].
+    assert (LS : forall L, ledger_step (heap_of s) L (OPtrSet root path v) ret = L).
+    { intros. simpl. replace (ret =? 0) with false by lia. reflexivity. }
+    destruct (ptr_target (heap_of s) root path).
+    + inversion H; subst. auto.
+    + destruct (put_node s root); try discriminate. inversion H; subst. lia.
+    + destruct (obj_add_fail _ _ _ _ _ _ _ H NZ). auto.
+    + destruct (arr_add_fail _ _ _ _ _ _ H NZ). auto.
+    + destruct (arr_put_fail _ _ _ _ _ _ _ H NZ). auto.
+Qed.
+
+(* ------------------------------------------------------------------ everything released => nothing left *)
+Lemma max_rank : forall (rk : id -> nat) (h : heap), h <> [] ->
+  exists i n, In (i, n) h /\ forall j m, In (j, m) h -> (rk j <= rk i)%nat.
+Proof.
+  intros rk. induction h as [|[k n] t IH]; intros NE; [congruence|].
+  destruct t as [|p t'].
+  - exists k, n. split; [simpl; auto|]. intros j m [X|X]; [inversion X; subst; lia|simpl in X; tauto].
+  - destruct IH as (i & ni & A & B); [congruence|].
+    destruct (le_lt_dec (rk k) (rk i)).
+    + exists i, ni. split; [simpl; auto|]. intros j m [X|X]; [inversion X; subst; lia|apply (B j m X)].
+    + exists k, n. split; [simpl; auto|]. intros j m [X|X]; [inversion X; subst; lia|].
+      specialize (B j m X). lia.
+Qed.
+
+Theorem all_released_empty : forall h L, Inv h L -> (forall i, L i = 0) -> h = [].
+Proof.
+  intros h L I Z. destruct h as [|p t] eqn:EH; [reflexivity|]. rewrite <- EH in *. exfalso.
+  destruct (inv_rank _ _ I) as [rk R].
+  destruct (max_rank rk h) as (i & n & A & B); [rewrite EH; congruence|].
+  pose proof (inv_nodup _ _ I) as ND.
+  pose proof (in_nodup_hfind h i n ND A) as F.
+  destruct (inv_rc _ _ I i n F) as [RC POS]. rewrite Z in RC.
+  destruct (indeg_pos_edge h i) as (a & m & A2 & X); [lia|].
+  pose proof (in_nodup_hfind h a m ND A2) as FA.
+  specialize (R a m i FA X). specialize (B a m A2). lia.
+Qed.
+
+Corollary all_released_empty_history : forall ops s' L' tr,
+  adm_hist init_state L0 ops -> run init_state L0 ops = Some (s', L', tr) ->
+  (forall i, L' i = 0) -> heap_of s' = [].
+Proof.
+  intros ops s' L' tr AH R Z.
+  destruct (run_invariant ops init_state L0 [] sinv_init) as (s2 & L2 & tr2 & R2 & (I & _) & _); auto.
+  - split; [constructor|]. simpl. tauto.
+  - rewrite R in R2. inversion R2; subst. eapply all_released_empty; eauto.
+Qed.
+
+(* ------------------------------------------------------------------ non-vacuity *)
+(* h1 = {} ; h2 = scalar ; add h1 "k" h2 ; get h2 ; put h1 (destroys 1 only) ; use h2 ; put h2 *)
+Definition ex_ops : list op :=
+  [ONew KObject; ONew KScalar; OObjAdd 1 [107] (Some 2); OGet 2; OPut 1; OUse 2; OPut 2].
+
+Lemma ex_scalar_no_reach : forall h a b n, hfind h a = Some n -> children n = [] -> a <> b -> ~ reach h a b.
+Proof.
+  intros h a b n F C NE R. inversion R as [|a1 m1 b1 E1 R1]; subst; [congruence|].
+  destruct E1 as (m & F2 & X). rewrite F in F2. inversion F2; subst. rewrite C in X. simpl in X. tauto.
+Qed.
+
+Lemma ex_admissible : adm_hist init_state L0 ex_ops.
+Proof.
+  unfold ex_ops. simpl. repeat split; auto; try (unfold live; simpl; congruence); try (unfold L0, upd; simpl; lia).
+  - exists (mkNode 1 KObject [] (Some 0)). split; reflexivity.
+  - right. simpl. split; [unfold L0, upd; simpl; lia|].
+    eapply ex_scalar_no_reach; [reflexivity|reflexivity|lia].
+Qed.
+
+Lemma ex_runs : exists s' L' tr,
+  run init_state L0 ex_ops = Some (s', L', tr) /\ heap_of s' = [] /\
+  map (fun t => (snd (fst t), dids (snd t))) tr =
+    [(1, []); (2, []); (0, []); (2, []); (1, [1]); (0, []); (1, [2])] /\
+  (forall i, L' i = 0).
+Proof.
+  eexists. eexists. eexists. split; [cbv -[upd upd_opt L0]; reflexivity|].
+  split; [reflexivity|]. split; [reflexivity|].
+  intros i. cbv [L0 upd upd_opt].
+  destruct (i =? 1), (i =? 2); lia.
+Qed.
+
+(* a failing operation in an admissible history: adding an object to itself *)
+Lemma ex_self_add : step (mkSt [(1, mkNode 1 KObject [] (Some 0))] 2) (OObjAdd 1 [107] (Some 1))
+                    = ROk (mkSt [(1, mkNode 1 KObject [] (Some 0))] 2) (-1) [].
+Proof. reflexivity. Qed.
